@@ -99,7 +99,7 @@ PROPS = {
     },
     "C12": {
         "level": "exploration",
-        "level_text": "Metamorphic isolation check: generated per-log histories over 2-5 logs (shared keys) are run interleaved and each alone on deterministic witnesses; every per-step verdict, returned bytes and final checkpoint must be identical, and no checkpoint of another origin is ever returned or stored for an ID. The identity half pushes generated configurations through the real YAML schema, AsLogMap, config.NewLog, the bastion handler, the distributor URL and the HTTP API and demands one ID everywhere and refusal of duplicates.",
+        "level_text": "Metamorphic isolation check: generated per-log histories over 2-5 logs (shared keys) are run interleaved and each alone on deterministic witnesses; every per-step verdict, returned bytes and final checkpoint must be identical, and no checkpoint of another origin is ever returned or stored for an ID. The identity half pushes generated configurations through the real YAML schema, AsLogMap and config.NewLog, and through the assembled service started by Main with a stub bastion (TLS1.3+h2 reverse connection), a stub distributor and the HTTP API, and demands one ID everywhere and refusal of duplicates by Main itself.",
         "level_note": "Isolation half uses the legacy (timestamp-free) signer so that bytes are comparable; identity half lives in the omniwitness package (in-package overlay test).",
         "technique": "property-based metamorphic testing (interleaved vs isolated histories) + generated configurations (rapid)",
         "assumptions": HIST_ASSUME,
@@ -137,7 +137,7 @@ PROPS = {
     },
     "C13": {
         "level": "exploration",
-        "level_text": "Feed cycles against a recording stub witness whose reported checkpoint changes between attempts: all 121 failure words of length <=4 over {get-latest, fetch-proof, update} enumerated, all (witness size, log size) pairs enumerated fault-free, never-clearing faults under a context deadline, unverifiable published checkpoints; the per-attempt argument/ordering contract is checked on the recorded calls. Generated (size, fork) cases run against the real witness through the in-package witnessAdapter.",
+        "level_text": "Feed cycles against a recording stub witness whose reported checkpoint changes between attempts: all 121 failure words of length <=4 over {get-latest, fetch-proof, update} enumerated, all (witness size, log size) pairs enumerated fault-free, never-clearing faults under a context deadline, unverifiable published checkpoints; the per-attempt argument/ordering contract is checked on the recorded calls. Generated (size, fork) cases run against the real witness through the in-package witnessAdapter, and the adapter itself is checked under injected storage read faults (an error must never look like "no checkpoint yet").",
         "level_note": "The exponential back-off uses the real clock (no hook added), so failing cases run as concurrent batches; deadlines are generous and only used for the 'stops when its context ends' clause.",
         "technique": "exhaustive fault-sequence enumeration + property-based testing against a recording stub and the real witness (rapid)",
         "assumptions": HIST_ASSUME,
@@ -161,7 +161,7 @@ PROPS = {
     },
     "C18": {
         "level": "exploration",
-        "level_text": "Tile coordinates (dense 0..1100, every x%03d carry boundary to 10^9, random; hash and data tiles; widths 1..256) through the exported SumDB client compared with tlog.Tile.Path; all size pairs up to 1200 (thorough; 160 quick) plus sampled pairs to 2^20 fed by sumdb.FeedLog from a stub SumDB that only serves tiles of the published tree, the resulting proof checked by the independent RFC 6962 verifier and by a real witness.",
+        "level_text": "Tile coordinates (dense 0..1100, every x%03d carry boundary to 10^9, random; hash and data tiles; widths 1..256) through the exported SumDB client compared with tlog.Tile.Path; all size pairs up to 1200 (thorough; 160 quick) plus sampled pairs to 2^20 fed by sumdb.FeedLog from a stub SumDB that only serves tiles of the published tree, the resulting proof checked by the independent RFC 6962 verifier and by a real witness; plus one periodic feeder followed through several growth steps into a real witness (state carried across cycles).",
         "level_note": "Stub SumDB serves tiles with x/mod tlog.ReadTileData over the harness's reference tree; reference = x/mod tlog for paths, harness verifier for proofs.",
         "technique": "property-based differential testing against the reference tlog implementation; exhaustive small size pairs",
         "assumptions": HIST_ASSUME,
@@ -174,7 +174,7 @@ PROPS = {
     },
     "C17": {
         "level": "exploration",
-        "level_text": "Finite and exhaustive: every entry of both shipped YAML files in the working tree is pushed through the functions Main uses (yaml schema, config.NewLog, AsLogMap, feeder enum) and one real feeder cycle against a network that records and refuses every request (URL well-formed, supported scheme, required query parameters, no panic); the same oracle is then run on 8 kinds of damaged copies per entry and must reject each, which shows it can fail.",
+        "level_text": "Finite and exhaustive: every entry of both shipped YAML files in the working tree is pushed through the functions Main uses (yaml schema, config.NewLog, AsLogMap, feeder enum) and one real feeder cycle against a network that records and refuses every request (URL well-formed, supported scheme, required query parameters, no panic); the real omniwitness.Main is started with each file and must come up; the same oracle is then run on 8 kinds of damaged copies per entry and must reject each, which shows it can fail.",
         "level_note": "The space is the fixed file, so generation is applied to the loader (config defects) rather than to the file.",
         "technique": "exhaustive enumeration of the shipped configuration + mutation-based sensitivity of the loader oracle",
         "assumptions": ["the working tree's omniwitness/logs.yaml and logs_test.yaml are what gets embedded"],
@@ -195,7 +195,7 @@ PROPS = {
     },
     "C06": {
         "level": "fault_enumeration",
-        "level_text": "Crash-point enumeration: for generated histories on file-backed SQLite (pool of one connection) the serving child process SIGKILLs itself at EVERY database-driver call boundary (before and after each begin/prepare/query/row fetch/exec/statement close/commit/rollback, including table creation); a fresh process reopens the file with the plain driver; each log must hold the old or the new checkpoint, complete and validly cosigned, every acknowledged update must still be in force, and the restarted witness must refuse forks (three presentations) and accept the honest continuation. Thorough adds SIGKILL from outside at drawn instants while the child loops.",
+        "level_text": "Crash-point enumeration: for generated histories on file-backed SQLite (pool of one connection) the serving child process SIGKILLs itself at EVERY database-driver call boundary (before and after each begin/prepare/query/row fetch/exec/statement close/commit/rollback, including table creation); a fresh process reopens the file with the plain driver; each log must hold the old or the new checkpoint, complete and validly cosigned, the log list must be exactly the logs holding a checkpoint, every acknowledged update must still be in force, and the restarted witness must refuse forks (three presentations), accept the honest continuation and really store it. Half of the histories contain a clean restart (requests split over two processes) before the crash points. Thorough adds SIGKILL from outside at drawn instants while the child loops.",
         "level_note": "SIGKILL keeps the OS page cache: this decides atomicity and acknowledge-after-commit ordering under process death, not durability under power loss. Instants inside SQLite's commit are only sampled (random-kill part).",
         "technique": "exhaustive crash-point injection at driver-call boundaries over rapid-generated histories (child processes), plus randomized kill instants",
         "assumptions": HIST_ASSUME + ["the OS keeps written pages of a killed process (no power loss)"],
